@@ -17,6 +17,7 @@ import EPV.Gen.RmtvLoop
 import EPV.Gen.RmtvRun
 import EPV.Gen.RmtvJump
 import EPV.Tactics
+import EPV.Lemmas.Bridge.SemiGud
 
 set_option linter.all false
 
@@ -114,15 +115,17 @@ theorem run_total (p : RmtvRun.P) : RmtvRun.outcome p = .ok := by
 tev = Q / Γ · 10³ (keV → eV), ener = Q / (γ-1) · 10¹⁶ (jerk/g → erg/g); Q = 0 ahead of the heat front -/
 theorem run_Q (p : RmtvRun.P) :
     ∃ Q, RmtvRun.tev p = Q / p.bigamma * 1000 ∧ RmtvRun.ener p = Q / (p.gamma - 1) * 10000000000000000 := by
+  -- no `Q` is read off the generated term: both fields vanish with their divisor, and otherwise
+  -- ener (γ-1) / 10¹⁶ = tev Γ / 10³ on every leaf (Bridge.SemiGud.exists_Q_of)
   simp only [epv_tree]
-  split_ifs
-  · simp only [epv_leaf]; exact ⟨0, by simp, by simp⟩
-  all_goals (simp only [epv_leaf, div_one]; exact ⟨_, rfl, rfl⟩)
+  split_ifs <;> simp only [epv_leaf] <;>
+    (refine Bridge.SemiGud.exists_Q_of (fun h => ?_) (fun h => ?_) (fun hG hg => ?_) <;>
+      [(simp [h]); (simp [sub_eq_zero.mp h]); (first | (field_simp <;> ring1) | simp | ring1)])
 
 /-- pressure is computed from density and energy: pres = (γ-1) · den · ener (both sides in cgs) -/
 theorem run_pres (p : RmtvRun.P) : RmtvRun.pres p = (p.gamma - 1) * RmtvRun.den p * RmtvRun.ener p := by
   simp only [epv_tree]
-  split_ifs <;> simp only [epv_leaf] <;> ring
+  split_ifs <;> simp only [epv_leaf] <;> first | ring1 | epv_semi_gud_eq
 
 end
 
